@@ -7,13 +7,14 @@ import z3
 
 from . import values as V
 from .values import (Val, INT, BOOL, REAL, STR, TD, NONE, CONC, IntS, BoolS, RealS, StrS, TdS,
-                     NoneS, OptS, TupS, RecS, SeqS, EnumS, UnionS, MapS, ConcS, VNONE)
+                     NoneS, OptS, TupS, RecS, SeqS, EnumS, UnionS, MapS, DictS, ConcS, VNONE)
 from .objects import (Closure, LocalClass, PyMap, Obj, ExcInst, MatchObj, BoundMethod,
                       BuiltinMethod, GenExp, RangeObj, EnumerateObj, FilterObj, IsliceObj,
-                      ItemsObj)
+                      ItemsObj, SymbolicFile)
 from .state import State, OutOfSubset, BindingLost
 from .engine import DeadPath, Outcome, FuncCtx, exc_class
 from .calls import _is_docstring
+from . import quant as Q
 
 MAX_PATHS = 4000
 
@@ -381,7 +382,12 @@ class StmtsMixin:
     def assign(self, target, val: Val, st):
         if isinstance(target, ast.Name):
             declared = self.unit.locals.get(target.id)
-            if declared is not None and not isinstance(val.shape, ConcS):
+            if declared is not None and isinstance(val.shape, ConcS) and isinstance(val.d, PyMap) and isinstance(declared, (MapS, DictS)):
+                try:
+                    val = V.coerce(val, declared)
+                except V.ShapeError as e:
+                    raise BindingLost(f"local {target.id}: {e}")
+            elif declared is not None and not isinstance(val.shape, ConcS):
                 try:
                     val = V.coerce(val, declared)
                 except V.ShapeError as e:
@@ -422,6 +428,23 @@ class StmtsMixin:
             st.rebind(target.id, newval)
             return
         if isinstance(target, ast.Subscript):
+            tv = target.value
+            if isinstance(tv, ast.Call) and isinstance(tv.func, ast.Attribute) and tv.func.attr == "setdefault" and len(tv.args) == 2:
+                # R.setdefault(k, dflt)[idx] = v :  R[k] = (R[k] if k in R else dflt) with [idx] = v
+                R = self.eval(tv.func.value, st)
+                k = self.eval(tv.args[0], st)
+                dflt = self.eval(tv.args[1], st)
+                ms = R.shape.map if isinstance(R.shape, DictS) else R.shape
+                if not isinstance(ms, MapS):
+                    raise OutOfSubset("setdefault on " + repr(R.shape))
+                kk = V.leaves(V.coerce(self.as_sym(k), ms.key))[0]
+                base = R.d[0] if isinstance(R.shape, DictS) else R
+                stored = V.from_leaves(ms.val, [z3.Select(a, kk) for a in base.d[1]])
+                inner = V.ite(z3.Select(base.d[0], kk), stored, V.coerce(dflt if isinstance(dflt.shape, ConcS) else self.as_sym(dflt), ms.val))
+                idx = self.eval(target.slice, st)
+                new_inner = self.store(inner, idx, newval, st)
+                self.assign_path(tv.func.value, self.store(R, k, new_inner, st), st)
+                return
             cont = self.eval(target.value, st)
             idx = self.eval(target.slice, st)
             self.assign_path(target.value, self.store(cont, idx, newval, st), st)
@@ -460,6 +483,23 @@ class StmtsMixin:
             m.items[key] = val
             m.present.pop(key, None)
             return V.vconc(m)
+        if isinstance(val.shape, ConcS) and isinstance(val.d, IsliceObj):
+            val = self.islice_to_seq(val.d)
+        if isinstance(s, (DictS, MapS)):
+            ik = self.as_sym(idx)
+            ks = s.key
+            if isinstance(ik.shape, OptS) and not isinstance(ks, OptS):
+                # the key expression is Optional: the declared key type excludes None
+                self.ctx.oblige(f"L{self.cur_line}/dict-key-is-not-None", st, z3.Not(ik.d[0]), kind="safety")
+                idx = ik.d[1]
+        if isinstance(s, DictS):
+            kv = V.coerce(self.as_sym(idx), s.key)
+            k = V.leaves(kv)[0]
+            was = z3.Select(cont.d[0].d[0], k)
+            newmap = self.store(cont.d[0], idx, val, st)
+            keys = cont.d[1]
+            newkeys = V.ite(was, keys, V.seq_append(keys, kv))
+            return Val(s, (newmap, newkeys))
         if isinstance(s, MapS):
             k = V.leaves(V.coerce(self.as_sym(idx), s.key))[0]
             v = V.coerce(self.as_sym(val), s.val)
@@ -567,7 +607,21 @@ class StmtsMixin:
         return outs
 
     def s_With(self, node, st):
-        raise OutOfSubset("with statement")
+        if len(node.items) != 1:
+            raise OutOfSubset("with statement form")
+        it = node.items[0]
+        ce = it.context_expr
+        if not (isinstance(ce, ast.Call) and isinstance(ce.func, ast.Name) and ce.func.id == "open" and isinstance(it.optional_vars, ast.Name)):
+            raise OutOfSubset("with statement other than `with open(...) as f`")
+        for a in ce.args:
+            self.eval(a, st)
+        how = ast.unparse(ce)
+        self.ctx.assumptions.add("open(path, 'r', encoding='utf-8-sig') yields the decoded text without a leading byte-order mark, newlines translated (universal newlines); closing the file has no effect on the result")
+        self.ctx.oblige(f"L{self.cur_line}/file-opened-as-utf-8-sig-text", st,
+                        z3.BoolVal("encoding='utf-8-sig'" in how and ("'r'" in how or ", 'rt'" in how or len(ce.args) == 1) and "'rb'" not in how and "newline=" not in how),
+                        kind="ground", info={"call": how})
+        st.set_local(it.optional_vars.id, V.vconc(SymbolicFile()))
+        return self.exec_block(node.body, st)
 
     # ------------------------------------------------------------------ loops
     def loop_spec(self, node):
@@ -878,7 +932,24 @@ class StmtsMixin:
         return out
 
     def items_for(self, node, items: ItemsObj, st, ordn, spec):
-        raise OutOfSubset("iteration over dict items")
+        mv = items.mapval
+        if not isinstance(mv.shape, DictS):
+            raise OutOfSubset("iteration over the items of " + repr(mv.shape))
+        keys = mv.d[1]
+        ms = mv.shape.map
+
+        def bind(s, it):
+            kv = V.seq_select(keys, it)
+            k = V.leaves(kv)[0]
+            val = V.from_leaves(ms.val, [z3.Select(a, k) for a in mv.d[0].d[1]])
+            s.assume(V.wf(kv))
+            s.assume(Q.deep_wf(self, val))
+            s.assume(z3.Select(mv.d[0].d[0], k))          # keys in the order sequence are present
+            self.bind_target(node.target, V.vtup([kv, val]), s)
+
+        tnames = assigned_in([ast.Assign(targets=[node.target], value=ast.Constant(0))])
+        return self.cut_loop(node, st, ordn, spec, lo=z3.IntVal(0), hi=keys.d[1], bind=bind, extra_mod=tnames,
+                             builtin_facts=lambda s, it: [it >= 0, it <= keys.d[1]], seq=keys)
 
 
 def _load(t):
